@@ -125,6 +125,11 @@ def raw_frame(b):
         df.iloc[6:8, oi] = np.nan
         df.iloc[-5:-3, ti] = np.nan
         df.iloc[-3:-2, oi] = np.nan
+    if b.get("weekly_gap"):
+        # the same hour of the same weekday is missing in every week (a scheduled meter-reading outage; 0.6 % of the hours)
+        wd, hr = b["weekly_gap"]
+        sel = (df.index.dayofweek.values == wd) & (df.index.hour.values == hr)
+        df.loc[df.index[sel], "observed"] = np.nan
     if b.get("profile") in SUPPLEMENTAL:
         # supplemental columns (complete, deterministic functions of the clock and the seed) the profile trains on
         rng = np.random.default_rng(b["noise_seed"] + 4242)
